@@ -46,6 +46,18 @@ def build_inputs(ctx):
     open(f, "r+b").truncate(os.path.getsize(f) - 8)
     with open(os.path.join(root, "rec.py"), "w") as fh:
         fh.write(tools.USER_RECIPE)
+    # many small boxes on level 0 (a count that is no multiple of small batch sizes): work split by worker count
+    many = plotgen.random_spec(rng, ndims=3, nlev=2, nf=3, data="smallint", B=2, nblk=[3, 3, 1], layout="files", refine_p=0.3, single0=False)
+    many["levels"][0] = [[[2 * i, 2 * j, 0], [2 * i + 1, 2 * j + 1, 1]] for i in range(3) for j in range(3)]
+    many["layout"][0] = [[b % 3, (7 * b) % 9] for b in range(9)]
+    many["fields"] = ["density", "temp", "volFrac"]
+    many["data"] = {"mode": "pestle", "seed": 9}
+    plotgen.materialize(many, os.path.join(root, "pltmany"))
+    # thermochemical states with covered cells (no temperature / no composition) in every box, boxes spread over files
+    from . import c11
+    sp = c11.species_spec(rng, nlev=2)
+    sp["layout"] = plotgen.random_layout(rng, sp["levels"], "files")
+    plotgen.materialize(sp, os.path.join(root, "pltsp"))
     return root, p
 
 
@@ -99,6 +111,14 @@ def scenarios(root, spec):
             return obs
         return run
 
+    def chef_thermo(serial):
+        def run(w):
+            from amr_kitchen.chef.chef import Chef
+            from . import c11
+            Chef(plotfile=I("pltsp"), recipe="HRR", outfile=os.path.join(w, "o"), kept_fields="temp", serial=serial,
+                 mech=c11.MECH, pressure=1.0).cook()
+        return run
+
     S = {
         "reader": reader,
         "taste": taste,
@@ -116,13 +136,17 @@ def scenarios(root, spec):
         "mandoline3d-twice-serial": mand_twice("plt00010", True, ["density"], [{"normal": 0, "pos": None}, {"normal": 2, "pos": None}, {"normal": 0, "pos": None}]),
         "mandoline-plotfile": tree(lambda w: tools.mandoline(I("plt00010"), "plotfile", os.path.join(w, "o"), ["temp"], 0, None)),
         "pestle": lambda w: {"integral": fbits(tools.pestle(I("plt00010"), "density", None, True))},
+        "pestle-many": lambda w: {"integral": fbits(tools.pestle(I("pltmany"), "density", None, False)),
+                                  "integral0": fbits(tools.pestle(I("pltmany"), "temp", 0, False))},
+        "chef-thermo-pool": tree(chef_thermo(False)),
+        "chef-thermo-serial": tree(chef_thermo(True)),
         "whip": tree(lambda w: tools.whip(I("plt00010"), "temp", os.path.join(w, "o"))),
         "chk2plt": tree(lambda w: tools.chk2plt(I("chk00005"), os.path.join(w, "o"), reactions=True)),
     }
     return S
 
 
-SERIAL_OF = {"chef-pool": "chef-serial", "mandoline3d-pool": "mandoline3d-serial", "mandoline2d-pool": "mandoline2d-serial",
+SERIAL_OF = {"chef-pool": "chef-serial", "chef-thermo-pool": "chef-thermo-serial", "mandoline3d-pool": "mandoline3d-serial", "mandoline2d-pool": "mandoline2d-serial",
              "mandoline2d-twice-pool": "mandoline2d-twice-serial", "mandoline3d-twice-pool": "mandoline3d-twice-serial"}
 
 
@@ -138,9 +162,16 @@ def run_scn(ctx, fn, start, finish, pool_cls=None, audit_tasks=False):
                 pools.ControlledPool.touched = None
                 return obs, touched
             pools.install(pool_cls)
+            # a tool that sizes its work by the machine sees the same number of workers
+            import multiprocessing as _mp
+            real_cpu = (_mp.cpu_count, os.cpu_count)
+            n_workers = getattr(pool_cls, "n", None)
+            if n_workers:
+                _mp.cpu_count = os.cpu_count = lambda: n_workers
             try:
                 return fn(w), None
             finally:
+                _mp.cpu_count, os.cpu_count = real_cpu
                 pools.uninstall()
     finally:
         shutil.rmtree(w, ignore_errors=True)
@@ -212,12 +243,12 @@ def run(ctx, rep, model=True):
         if len(rep.violations) >= 10:
             return
     # real process pools: worker counts
-    counts = [2] if ctx.quick else [1, 2, 3, 16]
+    counts = [1, 2] if ctx.quick else [1, 2, 3, 16]
     for n in counts:
         for name, fn in S.items():
             if name not in refs or name.endswith("-serial") or name.startswith("chef"):
                 continue
-            if ctx.quick and name not in ("colander", "whip", "reader", "pestle"):
+            if ctx.quick and name not in ("colander", "whip", "reader", "pestle", "pestle-many"):
                 continue
             case = {"scenario": name, "workers": n}
             rep.case(case, nontrivial=True); rep.count(f"workers:{n}")
